@@ -57,3 +57,116 @@ package defs
 //@   loop 0 invariant c13_seen: forall k int :: {ret[k]} 0 <= k && k < len(ret) ==> maphas(ids, ret[k].ID)
 //@   loop 0 invariant c13_unique: forall k1 int, k2 int :: {ret[k1], ret[k2]} 0 <= k1 && k1 < k2 && k2 < len(ret) ==> ret[k1].ID != ret[k2].ID
 //@   loop 0 invariant c12_complete: forall i0 int :: {$dst[i0]} 0 <= i0 && i0 < i && elig(vt, i0) ==> 0 <= $dst[i0] && $dst[i0] < len(ret) && $src[$dst[i0]] == i0
+
+// --- type annotations (types.go) -----------------------------------------------------------
+// readToken: the next token of src at or after *i: spaces are skipped, an identifier is taken
+// whole, anything else is a single character; the token is a substring of src and *i moves just
+// past it. A non-EOF result is never empty.
+//@ func readToken(src string, i *int, eofok bool) (tok string, err error)
+//@   requires i != nil && 0 <= *i && *i <= len(src)
+//@   modifies *i
+//@   ensures c13_tok: err == nil && len(tok) > 0 ==> old(*i) <= tok.ptr - src.ptr && tok.ptr + len(tok) == src.ptr + *i && *i <= len(src)
+//@   ensures c13_eof: err == nil && len(tok) == 0 ==> eofok && *i == old(*i)
+//@   ensures c13_noeof: !eofok && err == nil ==> len(tok) > 0
+//@   ensures err != nil ==> *i == old(*i)
+//@   ensures 0 <= *i && *i <= len(src)
+//@   loop 0 invariant old(*i) <= p && p <= n && n == len(src)
+//@   loop 1 invariant q < p && p <= n && n == len(src) && old(*i) <= q
+
+// error constructors (errors.go)
+//@ func ESyntax(pos int, src string, reason string) (e SyntaxError)
+//@   modifies nothing
+//@ func EType(vt reflect.Type, note string) (e TypeError)
+//@   modifies nothing
+//@ func ESetList(pos int, src string, vt reflect.Type) (e SyntaxError)
+//@   modifies $brk
+//@   ensures old($brk) <= $brk
+//@ func EUseOther(vt reflect.Type, alt string) (e TypeError)
+//@   modifies $brk
+//@   ensures old($brk) <= $brk
+//@ spec func ident0(c Int) bool = c == 95 || (c >= 97 && c <= 122) || (c >= 65 && c <= 90)
+//@ func isident0(c byte) (r bool)
+//@   modifies nothing
+//@   ensures r == ident0(c)
+//@ func isident(c byte) (r bool)
+//@   modifies nothing
+//@   ensures r == (ident0(c) || (c >= 48 && c <= 57))
+
+// observers of a parsed type (types.go); tagOf / isEnumOf are characterised by the wfDT axioms
+//@ func (t *Type) Tag() (r Tag)
+//@   requires wfDT(t)
+//@   modifies nothing
+//@   ensures r == tagOf(t)
+//@ func (t *Type) IsEnum() (r bool)
+//@   requires wfDT(t)
+//@   modifies nothing
+//@   ensures r == isEnumOf(t)
+//@ spec func keyOK(t *Type) bool = t.T == T_bool || t.T == T_i8 || t.T == T_double || t.T == T_i16 || t.T == T_i32 || t.T == T_i64 || t.T == T_string || t.T == T_enum || (t.T == T_pointer && t.V.T == T_struct)
+//@ func (t *Type) IsKeyType() (r bool)
+//@   requires t != nil && (t.T == T_pointer ==> t.V != nil)
+//@   modifies nothing
+//@   ensures c13_key: r == keyOK(t)
+//@ func (t *Type) IsValueType() (r bool)
+//@   requires t != nil && (t.T == T_pointer ==> t.V != nil)
+//@   modifies nothing
+//@   ensures c13_value: r == (t.T != T_pointer || t.V.T == T_struct)
+
+// newType takes a Type from a pool without New (or allocates one) and zeroes it (A-POOL)
+//@ trusted func defs.newType() (t *Type)
+//@   modifies $brk
+//@   ensures t != nil && old($brk) <= t && t + 40 <= $brk && t.T == 0 && t.K == nil && t.V == nil && t.S == nil
+//@ func T_int() (r Tag)
+//@   modifies nothing
+//@   ensures r == T_i64
+
+// what a successfully parsed node looks like, one level deep (these are the facts the wfDT axioms
+// of /verif/trusted/deps.spec promise to the descriptor constructors)
+//@ spec func valOK(t *Type) bool = t.T != T_pointer || t.V.T == T_struct
+//@ spec func scalarKind(k Int, tag Int) bool = (k == reflect.Bool ==> tag == T_bool) && (k == reflect.Int8 ==> tag == T_i8) && (k == reflect.Int16 ==> tag == T_i16)
+//@     && (k == reflect.Int32 ==> tag == T_i32) && ((k == reflect.Int64 || k == reflect.Int) ==> tag == T_i64 || tag == T_enum) && (k == reflect.Float64 ==> tag == T_double)
+//@     && (k == reflect.String ==> tag == T_string) && (k == reflect.Struct ==> tag == T_struct) && (k == reflect.Map ==> tag == T_map)
+//@     && (k == reflect.Slice ==> tag == T_binary || tag == T_list || tag == T_set)
+//@     && (tag == T_enum ==> k == reflect.Int64 || k == reflect.Int)
+//@ spec func dtOK(t *Type, vt reflect.Type) bool = t != nil && t.S == vt && ((rtKind(vt) == reflect.Ptr) <==> t.T == T_pointer)
+//@     && (t.T == T_pointer ==> t.V != nil && t.K == nil && t.V.T != T_pointer && t.V.T != T_map && t.V.T != T_list && t.V.T != T_set && t.V.S == rtElem(vt))
+//@     && (t.T == T_map ==> t.K != nil && t.V != nil && keyOK(t.K) && valOK(t.V))
+//@     && ((t.T == T_list || t.T == T_set) ==> t.V != nil && t.K == nil && valOK(t.V))
+//@     && (t.T != T_pointer && t.T != T_map && t.T != T_list && t.T != T_set ==> t.K == nil && t.V == nil)
+//@     && (t.T != T_pointer ==> scalarKind(rtKind(vt), t.T))
+
+//@ const ghost $tok = Str
+//@ func doParseSlice(vt reflect.Type, et reflect.Type, def string, i *int, rt *Type) (t *Type, err error)
+//@   requires vt != nil && et != nil && rtKind(vt) == reflect.Slice && i != nil && 0 <= *i && *i <= len(def) && rt != nil && rt.K == nil && i + 8 <= $brk && rt + 40 <= $brk
+//@   modifies *i, fields(rt), $brk
+//@   entry ghost $tok = ""
+//@   after readToken#0 ghost $tok = res_tok
+//@   ensures 0 <= *i && *i <= len(def) && old($brk) <= $brk
+//@   ensures c12_slice: err == nil ==> t == rt && dtOK(t, vt) && (t.T == T_set || t.T == T_list)
+//@   ensures c12_setlist: err == nil ==> ((t.T == T_set) <==> $tok == "set") && ((t.T == T_list) <==> $tok == "list")
+//@   ensures err != nil ==> t == nil
+
+//@ func doParseType(vt reflect.Type, def string, i *int, allowPtrs bool) (t *Type, err error)
+//@   requires vt != nil && i != nil && 0 <= *i && *i <= len(def) && i + 8 <= $brk
+//@   modifies *i, $brk
+//@   ensures 0 <= *i && *i <= len(def) && old($brk) <= $brk
+//@   ensures c12_node: err == nil ==> dtOK(t, vt) && old($brk) <= t
+//@   ensures c13_nested: err == nil && !allowPtrs ==> t.T != T_pointer
+//@   ensures err != nil ==> t == nil
+
+// doMatchStruct: does the identifier (optionally package-qualified) name the Go type?
+//@ func doMatchStruct(vt reflect.Type, def string, i *int, tv *string) (ok bool, err error)
+//@   requires vt != nil && i != nil && tv != nil && 0 <= *i && *i <= len(def) && i + 8 <= $brk && tv + 16 <= $brk && (i + 8 <= tv || tv + 16 <= i)
+//@   modifies *i, *tv, $brk
+//@   ensures 0 <= *i && *i <= len(def) && old($brk) <= $brk
+//@ func mkMistyped(pos int, src string, tv string, tag Tag, vt reflect.Type) (e SyntaxError)
+//@   requires vt != nil
+//@   modifies $brk
+//@   ensures old($brk) <= $brk
+
+// ParseType, what is proved of its code (callers use the assumed contract with wfDT)
+//@ func ParseType(vt reflect.Type, def string) (t *Type, err error)
+//@   requires vt != nil
+//@   modifies $brk
+//@   ensures c12_node: err == nil ==> dtOK(t, vt)
+//@   ensures err != nil ==> t == nil
+//@   ensures old($brk) <= $brk
